@@ -763,6 +763,66 @@ func (c *Check) totalityRules(parsed map[*ssa.Function]*comparator) {
 			c.bad("C08-R3", key, p.relFile(f.Pos()), "node order "+fnName(f)+" does not end in compareNodes(l, r): entries with equal keys are unordered [chain: "+strings.Join(cm.keysL, " , ")+"]")
 		}
 	}
+	// any other place that orders a list of graph nodes needs a total order too (the node
+	// lists come out of maps): a comparator handed to sort.Slice & co. over []*graph.Node must
+	// end in compareNodes or compare the whole Info
+	adhoc := 0
+	for f := range p.AllFns {
+		if !fnInModule(f) || f.Blocks == nil {
+			continue
+		}
+		for _, b := range f.Blocks {
+			for _, ins := range b.Instrs {
+				call, ok := ins.(ssa.CallInstruction)
+				if !ok || call.Common().StaticCallee() == nil || len(call.Common().Args) < 2 {
+					continue
+				}
+				sortName := call.Common().StaticCallee().String()
+				if i := strings.Index(sortName, "["); i > 0 {
+					sortName = sortName[:i]
+				}
+				switch sortName {
+				case "sort.Slice", "sort.SliceStable", "slices.SortFunc", "slices.SortStableFunc":
+				default:
+					continue
+				}
+				x := call.Common().Args[0]
+				if mi, ok := x.(*ssa.MakeInterface); ok {
+					x = mi.X
+				}
+				sl, ok := x.Type().Underlying().(*types.Slice)
+				if !ok || structName(sl.Elem()) != "graph.Node" {
+					continue
+				}
+				adhoc++
+				key := fmt.Sprintf("total:adhoc:%s#%d", fnName(f), adhoc)
+				fns, unknown := p.MG().funcValues(call.Common().Args[1], map[ssa.Value]bool{})
+				total := !unknown && len(fns) > 0
+				chain := ""
+				for _, g := range fns {
+					cm := parsed[g]
+					if cm == nil {
+						total = false
+						continue
+					}
+					chain = strings.Join(cm.keysL, " , ")
+					has := false
+					for _, k := range cm.keysL {
+						if k == "→compareNodes(·)" || (strings.HasPrefix(k, "fmt.Sprint(") && strings.HasSuffix(k, ".Info)")) {
+							has = true
+						}
+					}
+					total = total && has
+				}
+				if total {
+					c.ok("C08-R3", key, p.relFile(call.Pos()), "the ad-hoc node order in "+fnName(f)+" is total", "chain "+chain+" ends in the node identity")
+				} else {
+					c.bad("C08-R3", key, p.relFile(call.Pos()), fnName(f)+" orders a list of graph nodes with a comparator that has no identity key [chain: "+chain+"]: nodes that tie (two lines of one inlined location share an address) stay in the order of the map they were collected from, and the report changes from run to run")
+				}
+			}
+		}
+	}
+	c.Extra["adhoc_node_orders"] = adhoc
 	c.Floor("C08-R3", 8)
 }
 
